@@ -95,12 +95,14 @@ def runtimeOfJson (j : Json) : Except String Runtime := do
   match j with
   | .str "asyncio" => pure Runtime.asyncio
   | .str "asyncio_before_fixes" => pure Runtime.asyncioBeforeFixes
+  | .str "asyncio_before_f32" => pure Runtime.asyncioBeforeF32
   | .str "trio_before_fixes" => pure Runtime.trioBeforeFixes
   | .str "trio" => pure Runtime.trio
   | _ =>
     let base ← match (j.getObjValAs? String "base") with
       | .ok "trio" => pure Runtime.trio
       | .ok "asyncio_before_fixes" => pure Runtime.asyncioBeforeFixes
+      | .ok "asyncio_before_f32" => pure Runtime.asyncioBeforeF32
       | .ok "trio_before_fixes" => pure Runtime.trioBeforeFixes
       | _ => pure Runtime.asyncio
     let b (k : String) (d : Bool) : Bool := match j.getObjValAs? Bool k with
@@ -116,7 +118,8 @@ def runtimeOfJson (j : Json) : Except String Runtime := do
       stateCopiedAtServe := b "stateCopiedAtServe" base.stateCopiedAtServe,
       h2PriorFreshIdleTimer := b "h2PriorFreshIdleTimer" base.h2PriorFreshIdleTimer,
       endCancelRaises := b "endCancelRaises" base.endCancelRaises,
-      h2CancelDeadlocks := b "h2CancelDeadlocks" base.h2CancelDeadlocks }
+      h2CancelDeadlocks := b "h2CancelDeadlocks" base.h2CancelDeadlocks,
+      h2CancelSaysGoaway := b "h2CancelSaysGoaway" base.h2CancelSaysGoaway }
 
 /-- an environment event of the scenario; `cid` is the harness's connection number -/
 structure EnvEv where
@@ -361,12 +364,13 @@ def runtimeJson (rt : Runtime) : Json :=
     ("failedSetsEvent", rt.failedSetsEvent), ("channelsClosedOnExit", rt.channelsClosedOnExit),
     ("exitCheckpoints", rt.exitCheckpoints), ("waitClosedBlocksOnConnections", rt.waitClosedBlocksOnConnections),
     ("stateCopiedAtServe", rt.stateCopiedAtServe), ("h2PriorFreshIdleTimer", rt.h2PriorFreshIdleTimer),
-    ("endCancelRaises", rt.endCancelRaises), ("h2CancelDeadlocks", rt.h2CancelDeadlocks)]
+    ("endCancelRaises", rt.endCancelRaises), ("h2CancelDeadlocks", rt.h2CancelDeadlocks),
+    ("h2CancelSaysGoaway", rt.h2CancelSaysGoaway)]
 
 /-- the runtime constants the named witnesses of HC/Props/C14.lean and C15.lean are about -/
 def runtimesH : Handler := fun _ =>
   pure (Json.mkObj [("asyncio", runtimeJson Runtime.asyncio), ("trio", runtimeJson Runtime.trio),
-    ("asyncio_before_fixes", runtimeJson Runtime.asyncioBeforeFixes), ("trio_before_fixes", runtimeJson Runtime.trioBeforeFixes)])
+    ("asyncio_before_fixes", runtimeJson Runtime.asyncioBeforeFixes), ("asyncio_before_f32", runtimeJson Runtime.asyncioBeforeF32), ("trio_before_fixes", runtimeJson Runtime.trioBeforeFixes)])
 
 def handlers : List (String × Handler) := [("c14.run", runH), ("c15.run", runH), ("c14.runtimes", runtimesH)]
 
